@@ -21,11 +21,21 @@ Definition dec_wresp (s : sexp) : option wresp :=
   end.
 
 Definition dec_sclass (s : sexp) : option sclass :=
-  match s with A 0 => Some SUrl | A 1 => Some SNode | A 2 => Some SBad | A 3 => Some SPass | _ => None end.
+  match s with
+  | A 0 => Some SUrl | A 1 => Some SNode | A 2 => Some SBad | A 3 => Some SPass
+  | L [A 4; A r] => Some (SNpm r)
+  | _ => None
+  end.
 
 Definition dec_world (s : sexp) : option world :=
   match s with
-  | L [resps; reloads; classes; files; https; lock; A maxr] =>
+  | L (resps :: reloads :: classes :: files :: https :: lock :: A maxr :: rest) =>
+      (* an eighth field: the npm resolver's answers (absent in worlds written before it was modelled) *)
+      do npm' <- match rest with
+                 | [] => Some None
+                 | [n] => as_option (as_list_of (as_pair as_atom as_atom)) n
+                 | _ => None
+                 end;
       do resps' <- as_list_of (as_pair as_atom dec_wresp) resps;
       do reloads' <- as_list_of (as_pair as_atom dec_wresp) reloads;
       do classes' <- as_list_of (as_pair as_atom dec_sclass) classes;
@@ -33,7 +43,7 @@ Definition dec_world (s : sexp) : option world :=
       do https' <- as_atoms https;
       do lock' <- as_option (as_list_of (as_pair as_atom as_atom)) lock;
       Some {| w_resp := resps'; w_resp_reload := reloads'; w_http := https'; w_lock := lock';
-              w_class := classes'; w_file := files'; w_max_redirects := N.to_nat maxr |}
+              w_class := classes'; w_file := files'; w_max_redirects := N.to_nat maxr; w_npm := npm' |}
   | _ => None
   end.
 
@@ -59,6 +69,7 @@ Definition enc_berr (e : berr) : sexp :=
   | BInvalidTypeAssertion s r m => L [A 5; A s; A r; A (enc_media m)]
   | BUnsupportedAttr s r k => L [A 6; A s; A r; A k]
   | BBadSpecifier s r => L [A 7; A s; enc_ref r]
+  | BNpm s r k => L [A 8; A s; enc_ref r; A k]
   end.
 
 Definition enc_bslot (sl : bslot) : sexp :=
@@ -78,7 +89,8 @@ Definition enc_bgraph (g : bgraph) : sexp :=
      of_bool (bg_has_node g);
      set_of (map (fun c => L [A (lc_spec c); of_bool (lc_asset c); of_bool (lc_reload c);
                               of_option A (lc_checksum c)]) (bg_calls g));
-     set_of (map (fun p => of_atoms [fst p; snd p]) (bg_lock_sets g))].
+     set_of (map (fun p => of_atoms [fst p; snd p]) (bg_lock_sets g));
+     L [L (map of_atoms (bg_npm_calls g)); of_bool (bg_npm_dep_ok g)]].
 
 Definition dec_imports (s : sexp) : option (list (spec * list dep)) :=
   as_list_of (as_pair as_atom dec_deps) s.
